@@ -57,6 +57,9 @@ Activate(i, gv)     == Born(i) /\ OthersQuiet(i) /\ EnActivate(D(i), M(i)) /\ Up
 WriteSetter(i, v)   == Born(i) /\ OthersQuiet(i) /\ Idle(M(i)) /\ Upd(i, DoWriteSetter(D(i), M(i), v))
 WriteModel(i, v)    == Born(i) /\ OthersQuiet(i) /\ Idle(M(i)) /\ Upd(i, DoWriteModel(D(i), M(i), v))
 AddListener(i, p)   == Born(i) /\ OthersQuiet(i) /\ Idle(M(i)) /\ Upd(i, DoAddListener(D(i), M(i), p))
+\* sm.add_listener(a, b, ...): several listeners in one call
+AddListeners(i, ps) == Born(i) /\ OthersQuiet(i) /\ Idle(M(i))
+                       /\ Upd(i, [M(i) EXCEPT !.provs = @ \cup ps, !.out = RetOut(NoRes)])
 Return(i)           == Born(i) /\ EnReturn(M(i)) /\ Upd(i, DoReturn(M(i)))
 
 (***************************************************************************)
@@ -67,6 +70,13 @@ LoopExit(i)         == Born(i) /\ EnLoopExit(D(i), M(i)) /\ Upd(i, DoLoopExit(D(
 Select(i)           == Born(i) /\ EnSelect(D(i), M(i))   /\ Upd(i, DoSelect(D(i), M(i)))
 BeginCb(i, c)       == Born(i) /\ EnBeginCb(D(i), M(i), c) /\ Upd(i, DoBeginCb(D(i), M(i), c))
 NestedSend(i, c, ev) == Born(i) /\ EnNestedSend(D(i), M(i), c) /\ Upd(i, DoNestedSend(D(i), M(i), c, ev))
+\* the one send of an event used as an action (marks the open callback as having sent)
+NestedSendEv(i, c, ev) ==
+    /\ Born(i) /\ EnNestedSend(D(i), M(i), c)
+    /\ LET m1 == DoNestedSend(D(i), M(i), c, ev)
+           k  == IF M(i).opt.rtc THEN Len(m1.stack) ELSE Len(m1.stack) - 1
+           f  == m1.stack[k]
+       IN Upd(i, [m1 EXCEPT !.stack[k] = [f EXCEPT !.open = {IF o.c = c THEN [o EXCEPT !.sent = TRUE] ELSE o : o \in f.open}]])
 NestedRet(i, c)     == Born(i) /\ EnNestedRet(D(i), M(i), c) /\ Upd(i, DoNestedRet(D(i), M(i), c))
 EndCb(i, c, raised) == Born(i) /\ EnEndCb(D(i), M(i), c) /\ Upd(i, DoEndCb(D(i), M(i), c, raised))
 GuardFail(i)        == Born(i) /\ EnGuardFail(D(i), M(i)) /\ Upd(i, DoGuardFail(D(i), M(i)))
